@@ -121,6 +121,28 @@ def cases():
     add("REGEXP_SUBSTR(s, p, 1, 1, 'e', g): group g", "regex_substr",
         mk(lambda o: substr(o, parameters=lit("e", True), group=op(o, "g", lit("2", False)))),
         lambda o, i: substr_expect(o, LITERAL("1", False), "0", IS(o["g"])), "the group argument selects the capture group")
+    def unescaped(v, path):
+        """the literal's text is the original with Snowflake's doubled backslashes halved"""
+        t = v.args.get("this") if isinstance(v, NodeV) and v.cls == "Literal" else None
+        o_ = getattr(t, "origin", None)
+        ok = isinstance(t, Sym) and o_ and o_[0] == "method" and o_[2] == "replace" and [getattr(a, "v", None) for a in o_[3]] == ["\\\\", "\\"] \
+            and isinstance(o_[1], Sym) and "PAT_TEXT" in o_[1].tag
+        return None if ok else f"{path} is `{getattr(t, 'tag', t)}`, expected the pattern text with `\\\\` replaced by `\\`"
+
+    pat_text = lambda: lit(Sym("PAT_TEXT", typ="str", truthy=True), True)  # noqa: E731
+    add("REGEXP_SUBSTR(s, '<pat>'): doubled backslashes of the Snowflake string constant are halved", "regex_substr",
+        mk(lambda o: substr(o, expression=op(o, "pat", pat_text()))),
+        lambda o, i: P("Bracket", this=P("Anonymous", this="regexp_extract_all", expressions=LIST(lambda v, path: None, unescaped, lambda v, path: None, lambda v, path: None))),
+        "Snowflake needs `\\\\d` in a single-quoted constant where DuckDB needs `\\d`")
+    add("REGEXP_REPLACE(s, '<pat>'): doubled backslashes of the Snowflake string constant are halved", "regex_replace",
+        mk(lambda o: node("RegexpReplace", "stmt", this=op(o, "x"), expression=op(o, "pat", pat_text()))),
+        lambda o, i: P("RegexpReplace", expression=unescaped), "same escaping caveat as REGEXP_SUBSTR")
+    add("ARRAY_AGG(x) OVER (..) -> TO_JSON(ARRAY_AGG(x) OVER (..)) (the window, not the aggregate inside it, is wrapped)", "array_agg",
+        mk(lambda o: node("Window", "stmt", this=op(o, "agg", node("ArrayAgg", this=S("x"))), partition_by=Lst([S("p")]))),
+        lambda o, i: P("Anonymous", this="TO_JSON", expressions=LIST(IS(i))), "a window aggregate is converted as a whole")
+    add("the ARRAY_AGG inside a window is left alone", "array_agg",
+        mk(lambda o: (lambda agg: (node("Window", "stmt", this=agg, partition_by=Lst([S("p")])), agg)[1])(node("ArrayAgg", this=S("x")))),
+        UNCHANGED, "TO_JSON(ARRAY_AGG(x)) OVER (..) is not a window function call")
     # --- misc
     add("ARRAY_SIZE(a) -> CASE WHEN json_array_length(a) THEN json_array_length(a) END", "array_size", mk(lambda o: node("ArraySize", "stmt", this=op(o, "x"))),
         lambda o, i: P("Case", ifs=LIST(P("If", this=P("Anonymous", this="json_array_length", expressions=LIST(IS(o["x"]))),
